@@ -57,6 +57,7 @@ class Builder:
         self.tag = tag
         self.prints = prints
         self.np = 0
+        self.selfname_at = None
 
     def pr(self):
         if not self.prints:
@@ -128,6 +129,10 @@ class Builder:
             return self.pr() + "<%s, %s> <- split %s; %s" % (r["a"], r["b"], r["c"], self.term())
         if k == "cut":
             body = self.leaf(r["aux"][0])
+            if self.selfname_at is not None and self.selfname_at[0] == self.i - 1:
+                # (shadowing mutant) the spawned body names its provider by the cut's new name
+                import re as _re
+                body = _re.sub(r"\bself\b", self.selfname_at[1], body)
             ann = "" if r["t"]["k"] == "none" else " : " + ty_text(r["t"])
             return self.pr() + "%s%s <- new %s; %s" % (r["a"], ann, body, self.term())
         raise ValueError("rule " + k)
@@ -141,12 +146,15 @@ def render(prog, prints=True):
     decls = [dict(d) for d in prog["decls"]]
     mut = prog.get("mut") or None
     renames = {}
+    selfnames = {}
     if mut and mut["kind"] == "shadow-binder":
         d = decls[mut["d"] - 1]
         old = d["pre"][mut["k"] - 1]
         new = mut["rec"]
         frm, to = (old["b"], new["b"]) if old["r"] in ("+L", "&R") else (old["a"], new["a"])
         renames[mut["d"] - 1] = (mut["k"] - 1, frm, to)
+        if old["r"] == "cut" and old["aux"][0]["r"] not in ("call", "call-arity") and (len(json.dumps(prog, sort_keys=True)) % 2 == 0):
+            selfnames[mut["d"] - 1] = (mut["k"] - 1, to)
     elif mut:
         d = decls[mut["d"] - 1]
         if mut["k"] == 0:
@@ -162,6 +170,7 @@ def render(prog, prints=True):
             d["pre"] = pre
     for idx, d in enumerate(decls):
         b = Builder(d["pre"], "p%d" % (idx + 1), prints, renames.get(idx))
+        b.selfname_at = selfnames.get(idx)
         body = b.term()
         if d["kind"] == "fun":
             s = d["sig"]
